@@ -448,7 +448,9 @@ def main(tier):
     todo = sorted(by_len.values(), key=lambda x: -len(x[0][1]))[: 60 if thorough else 12]
     close_exc = set()
     for (code, reason), ops in todo:
-        for which, early in (("server", False), ("client", False), ("server", True)):
+        # (every phase x version x datagram size is crossed by the receiver-side scenarios 3b below)
+        for which, early in ((("server", False), ("client", False), ("server", True)) if thorough else
+                             (r.choice((("server", False), ("client", False), ("server", True))),)):
             exc, out = cp.close_with(which, code, reason, early=early)
             ctx.count(("close", which, early, code, reason), len(reason) > 100)
             nbytes = len(reason.encode("utf8"))
@@ -467,6 +469,57 @@ def main(tier):
                 ctx.witness("no closing datagram produced", {"h3_ops": ops, "close": [code, reason]},
                             {"exception": "none", "function": "datagrams_to_send"})
     ctx.notes["close_reasons_replayed"] = len(todo)
+    # 3b. judged ON THE WIRE AT THE RECEIVER: the real peer decrypts the closing datagrams, the plaintext it obtains
+    # is parsed by harness/frames.py; a peer that owns 1-RTT keys must get an application CONNECTION_CLOSE with
+    # the HTTP/3 error code (reason = a valid-UTF-8 prefix of the text), any other peer some CONNECTION_CLOSE
+    wire_seen = set()
+    wire_n = 0
+
+    def wire(phase, version, mds, code, reason, h3_ops=None):
+        nonlocal wire_n
+        wire_n += 1
+        problem, det = cp.close_on_wire(phase, version, mds, code, reason)
+        ctx.count(("close-wire", phase, version, mds, code, reason), True)
+        if problem:
+            key = (phase, problem[:50])
+            if key not in wire_seen:
+                wire_seen.add(key)
+                ctx.witness(
+                    f"after close(0x{code:x}, <{len(reason.encode('utf8'))}-byte reason>) in phase {phase} (QUIC version "
+                    f"0x{version:x}, max_datagram_size {mds}): {problem}",
+                    {"close_wire": {"phase": phase, "version": version, "max_datagram_size": mds, "error_code": code,
+                                    "reason_phrase": reason}, "h3_ops": h3_ops, "observed": det},
+                    {"close_wire": problem[:50], "phase": phase})
+
+    def boundary_lengths(mds):
+        return [0, 1, 255, 256] + [mds - k for k in (170, 150, 130, 120, 110, 100, 90, 80, 70, 64, 60, 56, 52, 48, 44, 40,
+                                                      36, 32, 28, 24, 20, 10, 0, -1)] + [2 * mds, 5000, 16383, 16384, 20000]
+    versions, sizes = (cp.V1, cp.V2), (1200, 1280, 1500)
+    if thorough:
+        for phase in cp.PHASES:
+            for version in versions:
+                for mds in sizes:
+                    for rl in boundary_lengths(mds):
+                        wire(phase, version, mds, 0x10E, "r" * rl)
+                    for rl in (mds - 60, mds - 40, 3000):
+                        wire(phase, version, mds, 0x10E, "\u00e9" * (rl // 2) + "\u20ac")
+    else:
+        # every boundary length in the phase that coalesces two close packets; every cell of the cross with a
+        # short, two boundary, and an over-long reason
+        for rl in boundary_lengths(1200):
+            wire("client-complete-not-confirmed", r.choice(versions), 1200, 0x10E, "r" * rl)
+        for phase in cp.PHASES:
+            for version in versions:
+                for mds in sizes:
+                    bl = boundary_lengths(mds)
+                    for rl in (r.choice(bl[:28]), r.choice(bl[12:])):
+                        wire(phase, version, mds, r.choice([0x10E, 0x101, 0x33]), "r" * rl)
+        for mds in sizes:
+            wire(r.choice(cp.PHASES), r.choice(versions), mds, 0x10E, "\u00e9" * ((mds - r.randrange(30, 80)) // 2) + "\u20ac" * 9)
+    # the reason texts the HTTP/3 layer really produced, in a random cell each
+    for (code, reason), ops in todo:
+        wire(r.choice(cp.PHASES), r.choice(versions), r.choice(sizes), code, reason, h3_ops=ops)
+    ctx.notes["close_wire_scenarios"] = wire_n
     # model of the capacity arithmetic against the real builder: every call of
     # _write_connection_close_frame is observed (remaining space, reason length, outcome)
     from aioquic.quic.packet_builder import QuicPacketBuilderStop
@@ -546,7 +599,13 @@ def main(tier):
         "randomly chunked + interleaved; datagrams; random frame soup; "
         "HTTP/0.9 request lines (no space, only whitespace, split across deliveries, FIN); every close reason the "
         "HTTP/3 layer produced replayed on a real handshaken QuicConnection pair (close + datagrams_to_send) and the "
-        "close-frame capacity arithmetic against the real packet builder. Non-trivial = every case (each is a "
+        "close-frame capacity arithmetic against the real packet builder; close scenarios judged ON THE WIRE AT THE "
+        "RECEIVER (real peer decrypts, harness/frames.py parses): {client confirmed, server confirmed, client handshake "
+        "complete but HANDSHAKE_DONE lost (Handshake + 1-RTT close coalesced, peer has discarded Handshake keys), "
+        "server before the handshake} x {QUIC v1, v2} x {max_datagram_size 1200, 1280, 1500} x reason lengths 0..20000 "
+        "incl. every length from 170 below to 1 above the datagram size in steps of <= 20, multi-byte UTF-8 at the "
+        "cut, and the reason texts the HTTP/3 layer produced in this run (quick: all boundary lengths in the "
+        "coalescing phase, 2 lengths (any / boundary-or-over-long) in every cell of the cross; thorough: the full cross). Non-trivial = every case (each is a "
         "malformed or boundary input); distinct by op-sequence hash."
     )
     ctx.cov["exhaustive"] = True
@@ -566,7 +625,13 @@ def replay(path):
         return 1 if n else 0
     rp = d["replay"]
     problem = None
-    if "close" in rp:
+    if "close_wire" in rp:
+        w = rp["close_wire"]
+        problem, det = ClosePath().close_on_wire(w["phase"], w["version"], w["max_datagram_size"], w["error_code"],
+                                                 w["reason_phrase"])
+        if problem:
+            problem += f" — observed at the receiver: {det}"
+    elif "close" in rp:
         c = rp["close"]
         code, reason = (c["error_code"], c["reason_phrase"]) if isinstance(c, dict) else c
         exc, out = ClosePath().close_with(rp.get("endpoint", "server"), code, reason,
